@@ -236,6 +236,29 @@ func checkC16(c *Ctx) *report.Result {
 		r.Ob("D-own", n > 0, "stores to the transfer state examined over every run-phase entry", "", fmt.Sprintf("%d stores", n))
 		r.Instances["D-own"] += n
 	}
+	// the byte copied is the byte stored at the source address, whatever the rest of the machine is doing
+	r.Rule("D-source", "a read of a source address in video RAM or work RAM (and its mirror) returns the stored byte in every machine state (no lock-out by PPU mode or anything else), so the transfer copies the source bytes as they are")
+	for _, reg := range [][3]interface{}{{0x8000, 0x9FFF, "VRAM"}, {0xC000, 0xDFFF, "WRAM"}, {0xE000, 0xF19F, "WRAM mirror"}} {
+		lo, hi := reg[0].(int), reg[1].(int)
+		for _, iv := range c.elementaryIntervals() {
+			if iv[1] < lo || iv[0] > hi {
+				continue
+			}
+			a, b := iv[0], iv[1]
+			if a < lo {
+				a = lo
+			}
+			if b > hi {
+				b = hi
+			}
+			ok, n, got := c.readReturnsLoadedByte(a, b, nil)
+			r.Ob("D-source", ok && n == 1, fmt.Sprintf("source read %04X-%04X (%s) returns the stored byte in every state", a, b, reg[2]), "", fmt.Sprintf("element loads %d, value returned %s (documented: exactly the loaded byte)", n, got))
+		}
+	}
+	r.Rule("D-step", "the DMA step is called exactly once per machine cycle by the frame loop, whatever the CPU is doing (rule L2 of C26 re-stated for the mapper step)")
+	adopt(r, c.sibling("C26"), map[string]string{"L2": "D-step"}, "a transfer that is not stepped every machine cycle does not take 162 cycles", func(f report.Finding) bool {
+		return strings.Contains(f.Construct, "Mapper") || strings.Contains(f.Construct, "floor")
+	})
 	return r
 }
 
